@@ -569,18 +569,20 @@ theorem g_approvedByEntryGuards_free {w : World U} (m : Mach U) (cur pend : List
       (({ m.w.freshControl with pending := pend, current := cur }).snapshot m.root true true) := h.of_seq rfl
   exact Node.g_entryGuard (fun s sl => free_entryGuard s sl) _ _ h0
 
-theorem g_foldl_applyRequest_free {w : World U} : (l : List (Transition × Nat)) → (m : Mach U) →
-    World.GrowsBy CbItem.free w m.w →
-    World.GrowsBy CbItem.free w (l.foldl (fun m (x : Transition × Nat) => m.applyRequest x.1 x.2) m).w
-  | [], m, h => h
-  | x :: rest, m, h => by
-    simp only [List.foldl]
-    exact g_foldl_applyRequest_free rest _ (g_applyRequest_free m x.1 x.2 h)
+theorem g_applyRequestNoPin_free {w : World U} (m : Mach U) (t : Transition)
+    (h : World.GrowsBy CbItem.free w m.w) : World.GrowsBy CbItem.free w (m.applyRequestNoPin t).w := by
+  have h0 : World.GrowsBy CbItem.free w (m.w.snapshot m.root true false) := h.of_seq rfl
+  rcases applyRequestNoPin_cases m t with ⟨p, e⟩ | ⟨msg, e⟩ | ⟨rq, e⟩ | ⟨rq, p, e⟩ <;> rw [e]
+  · exact h0
+  · exact World.g_fail' _ h0
+  · exact Node.g_request (fun s m sl hc => free_of_const s m sl hc) _ _ _ h0
+  · exact Node.g_fwdActive (fun s m sl hc => free_of_const s m sl hc) _ _ _ h0
 
 theorem g_applyRequests_free {w : World U} (m : Mach U) (ts : List Transition)
-    (h : World.GrowsBy CbItem.free w m.w) : World.GrowsBy CbItem.free w (m.applyRequests ts).1.w := by
-  rw [applyRequests_fst]
-  exact g_foldl_applyRequest_free _ _ (h.of_seq rfl)
+    (h : World.GrowsBy CbItem.free w m.w) : World.GrowsBy CbItem.free w (m.applyRequests ts).1.w :=
+  applyRequests_inv (P := fun m' => World.GrowsBy CbItem.free w m'.w)
+    (fun m' t i h' => g_applyRequest_free m' t i h') (fun m' t h' => g_applyRequestNoPin_free m' t h') m ts
+    (h.of_seq rfl)
 
 /-- the first-activation substitution loop: selection callbacks and entry guards only -/
 theorem g_rounds_true_free {w : World U} : (fuel : Nat) → (m : Mach U) → (bak : Node) →
@@ -1040,21 +1042,20 @@ theorem loadEnter_rec {base : Node} {k : Nat} {m : Mach U} (st : List Bool) (hI 
 
 /-! ### replays -/
 
-theorem foldl_applyRequest_view {base : Node} : (l : List (Transition × Nat)) → (m : Mach U) → LiveInv base m →
-    (l.foldl (fun m (x : Transition × Nat) => m.applyRequest x.1 x.2) m).w.err = none →
-    (l.foldl (fun m (x : Transition × Nat) => m.applyRequest x.1 x.2) m).root.view true false false =
-      m.root.view true false false
+theorem foldl_applyStep_view {base : Node} : (l : List (Transition × Nat)) → (m : Mach U) → LiveInv base m →
+    (l.foldl applyStep m).w.err = none →
+    (l.foldl applyStep m).root.view true false false = m.root.view true false false
   | [], m, hi, _ => rfl
   | x :: rest, m, hi, he => by
       simp only [List.foldl] at he ⊢
-      have h1 := applyRequest_live x.1 x.2 hi (foldl_applyRequest_errLe rest _ he)
-      exact (foldl_applyRequest_view rest _ h1.1 he).trans h1.2
+      have h1 := applyStep_live x hi (foldl_applyStep_errLe rest _ he)
+      exact (foldl_applyStep_view rest _ h1.1 he).trans h1.2
 
 theorem applyRequests_view {base : Node} {m : Mach U} (ts : List Transition) (hi : LiveInv base m)
     (he : (m.applyRequests ts).1.w.err = none) :
     (m.applyRequests ts).1.root.view true false false = m.root.view true false false := by
   rw [applyRequests_fst] at he ⊢
-  exact foldl_applyRequest_view _ _ ⟨hi.shape, hi.live, hi.good.of_eq rfl rfl rfl⟩ he
+  exact foldl_applyStep_view _ _ ⟨hi.shape, hi.live, hi.good.of_eq rfl rfl rfl⟩ he
 
 theorem replayTransitions_rec {base : Node} {k : Nat} {m : Mach U} (ts : List Transition) (hI : base.IdsFrom k)
     (hi : LiveInv base m) (he : (m.replayTransitions ts).1.w.err = none)
@@ -1079,7 +1080,7 @@ theorem replayTransitions_rec {base : Node} {k : Nat} {m : Mach U} (ts : List Tr
     · next hch =>
       rw [if_pos hch]
       simp only [w_updateActivity] at he
-      have a0 : (ar.1.root.commit ((World.withPrevious ar.1.w.freshControl ts).snapshot ar.1.root false false)).2.err
+      have a0 : (ar.1.root.commit ((World.withPrevious ar.1.w.freshControl (ts.take ar.1.w.cfg.historyCap)).snapshot ar.1.root false false)).2.err
           = none := by rw [h2] at he; exact he
       have a1 : ar.1.w.err = none := by
         have := (Node.commit_ext _ _).err a0
@@ -1088,7 +1089,7 @@ theorem replayTransitions_rec {base : Node} {k : Nat} {m : Mach U} (ts : List Tr
       have v1 : ar.1.root.view true false false = m.root.view true false false := by
         rw [h1] at a1 ⊢; rw [← r0]; exact applyRequests_view ts i0 a1
       have q1' : RecAt base (hasKey ar.1.root.activePre)
-          ((World.withPrevious ar.1.w.freshControl ts).snapshot ar.1.root false false) := by
+          ((World.withPrevious ar.1.w.freshControl (ts.take ar.1.w.cfg.historyCap)).snapshot ar.1.root false false) := by
         rw [Node.activePre_of_view v1]; exact q1.of_seq rfl
       have qc := Node.commit_rec ar.1.root k _ i1.shape (i1.shape.idsFrom k hI) i1.live.act i1.live.cok q1' a0
       show RecAt base (hasKey c.1.clearMarks.activePre) c.2
@@ -1149,10 +1150,10 @@ theorem replayEnter_rec {base : Node} {k : Nat} {m : Mach U} (ts : List Transiti
       refine ⟨fun _ => ?_, (fun h => by simp at h)⟩
       rw [if_pos hch] at he
       simp only [w_updateActivity] at he
-      have a0 : (ar.1.root.enter ((World.withPrevious ar.1.w.freshControl ts).snapshot ar.1.root false false)).2.err
+      have a0 : (ar.1.root.enter ((World.withPrevious ar.1.w.freshControl (ts.take ar.1.w.cfg.historyCap)).snapshot ar.1.root false false)).2.err
           = none := by rw [h3] at he; exact he
       have qe := Node.enter_rec ar.1.root k _ i2.shape (i2.shape.idsFrom k hI) i2.dres.res
-        (q2.of_seq (w' := (World.withPrevious ar.1.w.freshControl ts).snapshot ar.1.root false false) rfl) a0
+        (q2.of_seq (w' := (World.withPrevious ar.1.w.freshControl (ts.take ar.1.w.cfg.historyCap)).snapshot ar.1.root false false) rfl) a0
       show RecAt base (hasKey e.1.clearMarks.activePre) e.2
       rw [Node.activePre_of_view (Node.view_tff_of_ttf (Node.clearMarks_view true true _)), h3]
       exact qe
